@@ -287,6 +287,8 @@ def judge_report(ctx, inp, path, r):
 
 # ------------------------------------------------------------------ run
 def run(ctx):
+    import source_facts
+    source_facts.check_labels(ctx)
     rng = ctx.rng
     os.makedirs(SCRATCH, exist_ok=True)
     pool_m = gen_games.mixed_games(rng, 40 if ctx.quick else 200, 3, 9, styles=("stopping", "exact"))
